@@ -14,6 +14,11 @@ use std::path::{Path, PathBuf};
 use std::process::{Child, Command, Stdio};
 use std::time::{Duration, Instant};
 
+/// server stdout/stderr files go under <scratch>/logs: outside every served tree, removed with the scratch directory
+pub fn set_logdir(scratch: &Path) {
+    std::env::set_var("RWSV_LOGDIR", scratch.join("logs"));
+}
+
 pub fn free_port() -> u16 {
     let l = TcpListener::bind("127.0.0.1:0").expect("bind");
     l.local_addr().unwrap().port()
@@ -33,7 +38,10 @@ impl Srv {
         let stdout_path = dir.join(format!(".rwsv-{}-stdout", tag));
         let stderr_path = dir.join(format!(".rwsv-{}-stderr", tag));
         // logs live OUTSIDE the served tree (sibling of dir) so that the manifest of the tree is not touched by the harness
-        let logdir = dir.parent().and_then(|p| p.parent()).unwrap_or(dir).join("logs");
+        let logdir = match std::env::var("RWSV_LOGDIR") {
+            Ok(d) => PathBuf::from(d),
+            Err(_) => dir.parent().and_then(|p| p.parent()).unwrap_or(dir).join("logs"),
+        };
         std::fs::create_dir_all(&logdir).ok();
         let stdout_path = logdir.join(stdout_path.file_name().unwrap());
         let stderr_path = logdir.join(stderr_path.file_name().unwrap());
@@ -175,6 +183,7 @@ fn make_site(root: &Path) {
 pub fn history(o: &Opts) -> i32 {
     let bin = o.req("bin").to_string();
     let scratch = PathBuf::from(o.req("scratch"));
+    set_logdir(&scratch);
     let mut out = Out::create(o.req("out"));
     let root = scratch.join("tree").join("site");
     make_site(&root);
@@ -347,6 +356,7 @@ fn conc_site(root: &Path) {
 pub fn conc(o: &Opts) -> i32 {
     let bin = o.req("bin").to_string();
     let scratch = PathBuf::from(o.req("scratch"));
+    set_logdir(&scratch);
     let mut out = Out::create(o.req("out"));
     let root = scratch.join("tree").join("site");
     conc_site(&root);
@@ -496,6 +506,7 @@ fn syscall_event(line: &str) -> Option<Value> {
 pub fn fs(o: &Opts) -> i32 {
     let bin = o.req("bin").to_string();
     let scratch = PathBuf::from(o.req("scratch"));
+    set_logdir(&scratch);
     let mut out = Out::create(o.req("out"));
     let tree = scratch.join("tree");
     let root = tree.join("site");
@@ -796,6 +807,7 @@ fn one_launch(bin: &str, scratch: &Path, idx: usize, case: &Value) -> Value {
 pub fn config(o: &Opts) -> i32 {
     let bin = o.req("bin").to_string();
     let scratch = PathBuf::from(o.req("scratch"));
+    set_logdir(&scratch);
     let mut out = Out::create(o.req("out"));
     let cases = std::sync::Arc::new(read_ndjson(o.req("cases")));
     let next = std::sync::Arc::new(std::sync::atomic::AtomicUsize::new(0));
